@@ -49,6 +49,8 @@ type Contract struct {
 	LoopDec    map[int]*Clause
 	LoopMods   map[int][]string
 	Modifies   []string
+	Nullable   map[string]bool
+	ErrorIsValue bool // the error result is the function's product (a conversion), not a failure report
 	GuardedFree map[string]string // captured variable -> captured mutex that must be held when it is accessed
 	RangeOver  map[int]*Clause // loop ordinal -> required `for range <name>` form
 	CallAsserts map[string][]*Clause // callee -> assertions checked just before each call of it
@@ -78,6 +80,11 @@ type GlobalDecl struct {
 	Mutex     string
 	Writers   []string
 	Props     []string
+}
+
+type TypeInv struct {
+	Pkg, Type string
+	Clause    *Clause
 }
 
 type LemmaDecl struct {
@@ -160,7 +167,7 @@ func (g *Gen) loadContractFile(path string) error {
 		word, rest := splitWord(body)
 		switch word {
 		case "func":
-			cur = &Contract{Pkg: pkg, Func: rest, LoopInv: map[int][]*Clause{}, LoopDec: map[int]*Clause{}, LoopMods: map[int][]string{}, Absorbs: map[string]string{}, Unordered: map[string]string{}, GuardedFree: map[string]string{}, RangeOver: map[int]*Clause{}, CallAsserts: map[string][]*Clause{}, SafetyAt: map[string][]string{}, ModAt: map[string][]string{}, File: path, Line: ln}
+			cur = &Contract{Pkg: pkg, Func: rest, LoopInv: map[int][]*Clause{}, LoopDec: map[int]*Clause{}, LoopMods: map[int][]string{}, Absorbs: map[string]string{}, Unordered: map[string]string{}, Nullable: map[string]bool{}, GuardedFree: map[string]string{}, RangeOver: map[int]*Clause{}, CallAsserts: map[string][]*Clause{}, SafetyAt: map[string][]string{}, ModAt: map[string][]string{}, File: path, Line: ln}
 			key := pkg + "." + rest
 			if _, dup := g.contracts[key]; dup {
 				return fmt.Errorf("%s:%d: duplicate contract for %s", path, ln, key)
@@ -170,11 +177,31 @@ func (g *Gen) loadContractFile(path string) error {
 			lastClause = nil
 		case "package-wide":
 			// package-wide errors[C19] safety[C10] ... : default tags for every function of the package
+			if strings.Contains(rest, "nonnil-params") {
+				g.nonnilParams[pkg] = true
+			}
 			for _, m := range regexp.MustCompile(`(safety|errors|frame|locks|order)\s*\[([A-Z0-9, ]+)\]`).FindAllStringSubmatch(rest, -1) {
 				if g.pkgDefaults[pkg] == nil {
 					g.pkgDefaults[pkg] = map[string][]string{}
 				}
 				g.pkgDefaults[pkg][m[1]] = append(g.pkgDefaults[pkg][m[1]], parseProps(m[2])...)
+			}
+		case "type-invariant":
+			// type-invariant *Query wf: <expr over self>
+			tn, r2 := splitWord(rest)
+			cl, err := parseClause("type-invariant", r2, path, ln)
+			if err != nil {
+				return err
+			}
+			g.typeInvs = append(g.typeInvs, &TypeInv{Pkg: pkg, Type: tn, Clause: cl})
+			lastClause = cl
+		case "crash-root":
+			for _, f := range strings.Fields(rest) {
+				g.crashRoots[pkg+"."+f] = true
+			}
+		case "api-root":
+			for _, f := range strings.Fields(rest) {
+				g.apiRoots[pkg+"."+f] = true
 			}
 		case "global":
 			f := strings.Fields(rest)
@@ -296,6 +323,12 @@ func (g *Gen) loadContractFile(path string) error {
 					}
 				}
 			}
+		case "nullable":
+			for _, f := range strings.Fields(rest) {
+				cur.Nullable[strings.TrimSuffix(f, ",")] = true
+			}
+		case "error-is-value":
+			cur.ErrorIsValue = true
 		case "assume-userfn":
 			cur.AssumeUserFn = true
 		case "unordered":
@@ -376,7 +409,7 @@ func (g *Gen) contractFor(canon string) *Contract {
 			return s
 		}
 		c = &Contract{Pkg: pkg, Func: strings.TrimPrefix(canon, pkg+"."), LoopInv: map[int][]*Clause{}, LoopDec: map[int]*Clause{}, LoopMods: map[int][]string{},
-			Absorbs: map[string]string{}, Unordered: map[string]string{}, GuardedFree: map[string]string{}, RangeOver: map[int]*Clause{}, CallAsserts: map[string][]*Clause{}, SafetyAt: map[string][]string{}, ModAt: map[string][]string{}, Synth: true}
+			Absorbs: map[string]string{}, Unordered: map[string]string{}, Nullable: map[string]bool{}, GuardedFree: map[string]string{}, RangeOver: map[int]*Clause{}, CallAsserts: map[string][]*Clause{}, SafetyAt: map[string][]string{}, ModAt: map[string][]string{}, Synth: true}
 		g.synth[canon] = c
 	}
 	if !c.defaultsApplied {
